@@ -386,6 +386,17 @@ A_RoundTrip(C, fmt) ==
                     !.func = [g \in GeneU |-> TRUE],
                     !.groups = IF fam = "sbml" THEN @ ELSE {}])
 
+\* expected detached result of reaction arithmetic (kind: "copy" | "add" | "sub" | "mul")
+ArithResult(C, kind, r, q, k) ==
+  LET rl == IF C.rule[r].k # "none" /\ C.rule[q].k # "none" THEN And2(C.rule[r], C.rule[q])
+            ELSE IF C.rule[r].k # "none" THEN C.rule[r] ELSE C.rule[q] IN
+  CASE kind = "copy" -> [S |-> C.S[r], lb |-> C.lb[r], ub |-> C.ub[r], rule |-> C.rule[r]]
+    [] kind = "add"  -> [S |-> [m \in MetU |-> C.S[r][m] + C.S[q][m]], lb |-> C.lb[r], ub |-> C.ub[r], rule |-> rl]
+    [] kind = "sub"  -> [S |-> [m \in MetU |-> C.S[r][m] - C.S[q][m]], lb |-> C.lb[r], ub |-> C.ub[r], rule |-> C.rule[r]]
+    [] kind = "mul"  -> [S |-> [m \in MetU |-> C.S[r][m] * k],
+                         lb |-> IF k < 0 THEN Neg(C.ub[r]) ELSE C.lb[r], ub |-> IF k < 0 THEN Neg(C.lb[r]) ELSE C.ub[r],
+                         rule |-> C.rule[r]]
+
 \* ------------------------------------------------------------------ whole-state dispatcher
 \* St = [m |-> [s \in Slots |-> C or NoModel], ctx |-> [s \in Slots |-> Seq(C)]]
 SRes(St, raises, atomic, ret) == [st |-> St, raises |-> raises, atomic |-> atomic, ret |-> ret]
@@ -432,6 +443,8 @@ ContentOp(op, C) ==
     \* an edit of a reaction object that was removed from the model (detached): the model's content does not
     \* change now; if the removal is undone later by a context exit the object comes back as it then is
     [] op.a = "DetachedSetBounds"  -> IF op.r \in C.rxns \/ op.lo > op.hi THEN FailLoose(C, "skip") ELSE Ok(C)
+    \* Reaction.copy / + / - / * return detached objects and leave their operands (and the model) unchanged
+    [] op.a = "RxnArith"           -> IF op.r \in C.rxns /\ op.q \in C.rxns THEN Ok(C) ELSE FailLoose(C, "skip")
     [] op.a \in {"Analyze", "Init"} -> Ok(C)     \* stuttering steps on the content
     [] OTHER                       -> FailLoose(C, "unknown-op")
 
@@ -440,9 +453,24 @@ ContentActions == {"AddMetabolites", "RemoveMetabolites", "AddReactions", "Remov
                    "SetBounds", "RxnKnockOut", "SetRule", "GeneKnockOut", "KnockOutModelGenes", "RemoveGenes",
                    "RenameGene", "RenameReaction", "RenameMetabolite", "SetObjective", "SetObjCoef", "SetDirection",
                    "SetMedium", "SwitchSolver", "AddUserCons", "AddUserVar", "RemoveUserCons", "RemoveUserVar",
-                   "AddGroup", "RemoveGroup", "Annotate", "Analyze", "RoundTrip", "GetMedium", "Init", "DetachedSetBounds"}
+                   "AddGroup", "RemoveGroup", "Annotate", "Analyze", "RoundTrip", "GetMedium", "Init", "DetachedSetBounds", "RxnArith"}
 \* operations that the documentation does NOT declare reversible inside `with model:`
 NotContextAware == {"AddGroup", "RemoveGroup", "Annotate", "RenameReaction", "RenameMetabolite", "DetachedSetBounds"}
+
+\* left.merge(right, inplace=True, objective="left"): the reactions of right whose ids are new to left are added
+\* (as copies, with their metabolites and genes); user-added variables/constraints of right are copied by name;
+\* steady-state rows of right's metabolites that did not come along with a reaction are copied as plain rows
+SpecsOf(R, C) == LET ids == SelectSeq(RxSeq, LAMBDA r : r \in R.rxns /\ r \notin C.rxns) IN
+                 [i \in 1..Len(ids) |-> [id |-> ids[i], st |-> R.S[ids[i]], lb |-> R.lb[ids[i]], ub |-> R.ub[ids[i]],
+                                         rule |-> R.rule[ids[i]]]]
+A_Merge(C, R) ==
+  LET C1 == AddRxns(C, SpecsOf(R, C))
+      C2 == [C1 EXCEPT !.sbo = [r \in RxU |-> IF r \in C1.rxns \ C.rxns THEN R.sbo[r] ELSE C1.sbo[r]],
+                       !.ann = [x \in AllIds |-> IF x \in (C1.rxns \ C.rxns) THEN R.ann[x] ELSE C1.ann[x]],
+                       !.note = [x \in AllIds |-> IF x \in (C1.rxns \ C.rxns) THEN R.note[x] ELSE C1.note[x]],
+                       !.xcols = @ \cup R.xcols,
+                       !.xrows = @ \cup R.xrows \cup (R.mets \ C1.mets)]
+  IN Ok(C2)
 
 Apply(op, St) ==
   LET s == op.s IN
@@ -472,6 +500,9 @@ Apply(op, St) ==
           "none", TRUE, NoRet)
   ELSE IF ~IsModel(St.m[s]) THEN Skip(St)
   ELSE IF op.a = "RoundTrip" /\ Len(St.ctx[s]) > 0 THEN Skip(St)      \* the loaded model replaces the object
+  ELSE IF op.a = "Merge" THEN
+     IF ~IsModel(St.m[op.t]) \/ op.t = s \/ St.helper[s] # 0 \/ St.helper[op.t] # 0 THEN Skip(St)
+     ELSE Lift(St, s, A_Merge(St.m[s], St.m[op.t]))
   ELSE IF op.a \in NotContextAware /\ Len(St.ctx[s]) > 0
        THEN Lift([St EXCEPT !.taint[s] = TRUE], s, ContentOp(op, St.m[s]))
   ELSE IF op.a = "SwitchSolver" /\ Len(St.ctx[s]) > 0 /\ op.solver # St.m[s].solver
